@@ -1197,10 +1197,35 @@ def probe_json(spec):
                         ph['skipped'] = 'set-up of the original raises ' + type(e).__name__
                         r[phase] = ph
                         continue
+                twin = None
+                if label.startswith('Portfolio') and g.get('tz') and not spec['opts'].get('special'):
+                    # another portfolio of the same session whose grid covers the same instants in another zone is saved and loaded first
+                    try:
+                        tzt = {'CET': 'Europe/Berlin', 'Europe/Berlin': 'CET'}.get(g['tz'], 'UTC')
+                        st_, en_ = [pd.Timestamp(v).tz_localize(g['tz']).tz_convert(tzt).tz_localize(None) for v in (g['start'], g['end'])]
+                        gt = dict(g, start=str(st_), end=str(en_), tz=tzt)
+                        def twin_pf():
+                            pf_ = mk_portfolio(spec)
+                            pf_.set_timegrid(mk_grid(gt))
+                            return pf_
+                        t0 = load_from_json(to_json(twin_pf()))
+                        twin = tzt
+                        import build as _b
+                        _b._TZ[0] = g.get('tz')
+                    except Exception:
+                        twin = None
                 s1 = to_json(obj)
                 ph['saved'] = True
                 obj2 = load_from_json(s1)
                 ph['loaded'] = True
+                if twin:
+                    try:
+                        t1_ = load_from_json(to_json(twin_pf()))
+                        ph['twin_grid_zone_kept'] = bool(str(t1_.timegrid.tz) == twin)
+                        import build as _b
+                        _b._TZ[0] = g.get('tz')
+                    except Exception as e:
+                        ph['twin_grid_zone_kept'] = 'error: ' + repr(e)[:100]
                 s2 = to_json(obj2)
                 ph['resave_equal'] = bool(_json.loads(s1) == _json.loads(s2))
                 if label.startswith('Portfolio'):
